@@ -20,7 +20,8 @@ RULE = ("message sets are produced by really running ProgGen programs (remote su
         "is returned by Parser.add exactly at the step where its last message arrives, once; (c) every subset parses without "
         "exception, strict subsets are never complete, exactly the present messages appear in the partial tree, states from "
         "different orders of one subset are equal; (d) parse_stream yields completed tasks during the stream and incomplete ones "
-        "once at the end. non-trivial = task with >=2 nesting levels or a remote sub-task; distinct by (task shape, order class)")
+        "once at the end. A third of the programs run with a second, failing destination and/or raising exception extractors, so the tasks "
+        "contain eliot:destination_failure reports and extractor tracebacks; one case in 40 has an action with 250-400 direct children. non-trivial = task with >=2 nesting levels or a remote sub-task; distinct by (task shape, order class)")
 ASSUMPTIONS = ["message sets come from well-formed tasks (each position used once)"]
 EXHAUSTIVE_NOTE = "permutations and subsets of every task with <= 6 (quick) / <= 7 (thorough) messages are enumerated completely"
 
